@@ -50,6 +50,11 @@ pub enum Frame {
     Null,
 }
 
+/// Maximum nesting depth of arrays accepted by [`Frame::check`] and [`Frame::parse`]. Both
+/// functions recurse once per nesting level, so without a limit a peer could exhaust the stack
+/// (and thereby abort the whole process) with a few hundred kilobytes of `*1\r\n`.
+const MAX_DEPTH: usize = 32;
+
 impl Frame {
     /// Try to read data of a frame from the given reader.
     ///
@@ -59,6 +64,10 @@ impl Frame {
     ///
     /// [`FrameError::Incomplete`]: crate::resp::frame::Error::Incomplete
     pub fn parse(reader: &mut Cursor<&[u8]>) -> Result<Self, Error> {
+        Self::parse_nested(reader, 0)
+    }
+
+    fn parse_nested(reader: &mut Cursor<&[u8]>, depth: usize) -> Result<Self, Error> {
         match get_byte(reader)? {
             b'+' => {
                 let l = get_line(reader)?;
@@ -97,6 +106,9 @@ impl Frame {
                 Ok(Frame::BulkString(b))
             }
             b'*' => {
+                if depth >= MAX_DEPTH {
+                    return Err(Error::BadEncoding);
+                }
                 // Parse the array length and try convert it to u64
                 let len = get_integer(reader)?;
                 let len = len.try_into().map_err(|_| Error::BadEncoding)?;
@@ -106,7 +118,7 @@ impl Frame {
                 let len: usize = len;
                 let mut items = Vec::with_capacity(len.min(reader.remaining()));
                 for _ in 0..len {
-                    items.push(Frame::parse(reader)?);
+                    items.push(Frame::parse_nested(reader, depth + 1)?);
                 }
                 Ok(Frame::Array(items))
             }
@@ -116,6 +128,10 @@ impl Frame {
 
     /// Checks if a message frame can be parsed from the reader without memory allocations.
     pub fn check(buf: &mut Cursor<&[u8]>) -> Result<(), Error> {
+        Self::check_nested(buf, 0)
+    }
+
+    fn check_nested(buf: &mut Cursor<&[u8]>, depth: usize) -> Result<(), Error> {
         match get_byte(buf)? {
             b'+' => {
                 get_line(buf)?;
@@ -138,9 +154,12 @@ impl Frame {
                 }
             }
             b'*' => {
+                if depth >= MAX_DEPTH {
+                    return Err(Error::BadEncoding);
+                }
                 let n = get_integer(buf)?;
                 for _ in 0..n {
-                    Frame::check(buf)?;
+                    Frame::check_nested(buf, depth + 1)?;
                 }
             }
             _ => return Err(Error::BadEncoding),
